@@ -76,7 +76,7 @@ Inductive err :=
 | EDropColumn          (* DROP COLUMN refused: the column is used by the primary key, an index, a UNIQUE or a foreign key *)
 | ENotNull             (* a row violates NOT NULL *)
 | EUnique              (* rows violate a UNIQUE index / PRIMARY KEY *)
-| EFKViolation         (* implicit DELETE of DROP TABLE hits a referencing row *)
+| EFKViolation         (* implicit DELETE of DROP TABLE hits a referencing row, or cannot compile an ON DELETE action ([drop_blocked]) *)
 | EUnsupported.        (* statement outside the model *)
 
 Inductive result (A : Type) := Ok (a : A) | Err (e : err).
@@ -243,14 +243,14 @@ Definition fk_def_ok (t : table) (f : fkey) : result unit :=
 Definition check_def_ok (k : check) : result unit :=
   if is_wrapped (check_sql (k_expr k)) then Ok tt else Err ESyntax.
 
-Definition create_table (d : db) (x : xtable) (uniques : list (list str)) : result db :=
+(** what CREATE TABLE checks of the definition (the table's name plays no role here): the effective
+    primary key, or the error *)
+Definition table_checks (x : xtable) (uniques : list (list str)) : result (option index) :=
   let t := x_t x in
   match t_idx t with
   | _ :: _ => Err EUnsupported
   | [] =>
-  if reserved_name (t_name t) then Err EBadTable
-  else if name_used (t_name t) (db_tables d) then Err EExists
-  else if negb (nodup_strs (map c_name (t_cols t))) then Err EDupColumn
+  if negb (nodup_strs (map c_name (t_cols t))) then Err EDupColumn
   else if negb (existsb (fun c => match c_gen c with None => true | Some _ => false end) (t_cols t)) then Err EBadTable
   else match first_err (column_def_ok t) (t_cols t) with
   | Err e => Err e
@@ -280,10 +280,27 @@ Definition create_table (d : db) (x : xtable) (uniques : list (list str)) : resu
   | Err e => Err e
   | Ok _ =>
   if negb (forallb (fun u => forallb (has_col t) u && negb (Nat.eqb (length u) 0)) uniques) then Err ENoSuchColumn
-  else
-    let t' := mkTable (t_name t) (t_without_rowid t) (t_strict t) (t_cols t) pk [] (t_fks t) (t_checks t) in
-    Ok (set_tables d (db_tables d ++ [mkCT (set_x_t x t') uniques []]))
+  else Ok pk
   end end end end end
+  end.
+
+(** everything CREATE TABLE checks except that the name is free: the catalogue entry it would add *)
+Definition new_ctable (x : xtable) (uniques : list (list str)) : result ctable :=
+  let t := x_t x in
+  if reserved_name (t_name t) then Err EBadTable
+  else match table_checks x uniques with
+       | Err e => Err e
+       | Ok pk =>
+           Ok (mkCT (set_x_t x (mkTable (t_name t) (t_without_rowid t) (t_strict t) (t_cols t) pk [] (t_fks t) (t_checks t)))
+                    uniques [])
+       end.
+
+Definition create_table (d : db) (x : xtable) (uniques : list (list str)) : result db :=
+  match new_ctable x uniques with
+  | Err e => Err e
+  | Ok ct =>
+      if name_used (t_name (x_t x)) (db_tables d) then Err EExists
+      else Ok (set_tables d (db_tables d ++ [ct]))
   end.
 
 (** ** DROP TABLE *)
@@ -342,11 +359,31 @@ Fixpoint implicit_delete (n : str) (prows : list row) (l : list ctable) : result
       end
   end.
 
+(** With [foreign_keys] on, the implicit DELETE compiles the ON DELETE action of every foreign key that
+    references the table; an action that rewrites the child table (CASCADE, SET NULL, SET DEFAULT)
+    fails to compile ("no such table") when that child table itself has a foreign key to a table
+    that does not exist (for SET NULL / SET DEFAULT: one sharing a column with the rewritten ones),
+    whether or not there are rows. *)
+Definition fk_missing_parent (l : list ctable) (f : fkey) : bool :=
+  match find_ct (f_reftable f) l with None => true | Some _ => false end.
+Definition shares_col (f g : fkey) : bool :=
+  existsb (fun c => existsb (str_eqb c) (f_cols g)) (f_cols f).
+Definition drop_blocked (n : str) (l : list ctable) : bool :=
+  existsb (fun c =>
+    existsb (fun f =>
+      str_eqb (f_reftable f) n &&
+      (let act := DiffSqlite.to_upper (f_ondelete f) in
+       (str_eqb act CASCADE && existsb (fk_missing_parent l) (t_fks (ct_t c)))
+       || ((str_eqb act SET_NULL || str_eqb act SET_DEFAULT)
+           && existsb (fun g => fk_missing_parent l g && shares_col f g) (t_fks (ct_t c)))))
+      (t_fks (ct_t c))) l.
+
 Definition drop_table (d : db) (n : str) : result db :=
   match find_ct n (db_tables d) with
   | None => Err ENoSuchTable
   | Some c =>
       if db_fk d then
+        if drop_blocked n (db_tables d) then Err EFKViolation else
         match implicit_delete n (ct_rows c) (db_tables d) with
         | Ok l => Ok (set_tables d (remove_ct n l))
         | Err e => Err e
@@ -451,31 +488,35 @@ Fixpoint has_dup_on (cols : list str) (l : list row) : bool :=
       || has_dup_on cols l'
   end.
 
+(** what CREATE INDEX checks of the index definition itself *)
+Definition index_def_ok (t : table) (i : index) : result unit :=
+  match i_name i with
+  | [] => Err ESyntax
+  | _ =>
+    if reserved_name (i_name i) then Err EBadTable
+    else match i_parts i with
+         | [] => Err ESyntax
+         | _ => first_err (part_ok_b t) (i_parts i)
+         end
+  end.
+
 Definition create_index (d : db) (n : str) (i : index) : result db :=
   match find_ct n (db_tables d) with
   | None => Err ENoSuchTable
   | Some ct =>
       let t := ct_t ct in
-      match i_name i with
-      | [] => Err ESyntax
-      | _ =>
-        if reserved_name (i_name i) then Err EBadTable
-        else if name_used (i_name i) (db_tables d) then Err EExists
-        else match i_parts i with
-        | [] => Err ESyntax
-        | _ =>
-          match first_err (part_ok_b t) (i_parts i) with
-          | Err e => Err e
-          | Ok _ =>
-            let dup :=
-              match i_unique i, i_pred i, part_col_names (i_parts i) with
-              | true, None, Some cols => has_dup_on cols (ct_rows ct)
-              | _, _, _ => false
-              end in
-            if dup then Err EUnique
-            else Ok (set_tables d (update_ct n (fun ct => set_ct_t ct (set_t_idx (ct_t ct) (t_idx (ct_t ct) ++ [i]))) (db_tables d)))
-          end
-        end
+      match index_def_ok t i with
+      | Err e => Err e
+      | Ok _ =>
+        if name_used (i_name i) (db_tables d) then Err EExists
+        else
+          let dup :=
+            match i_unique i, i_pred i, part_col_names (i_parts i) with
+            | true, None, Some cols => has_dup_on cols (ct_rows ct)
+            | _, _, _ => false
+            end in
+          if dup then Err EUnique
+          else Ok (set_tables d (update_ct n (fun ct => set_ct_t ct (set_t_idx (ct_t ct) (t_idx (ct_t ct) ++ [i]))) (db_tables d)))
       end
   end.
 
